@@ -393,7 +393,14 @@ func (enc *Encoder) write2dInterfaceSliceBody(slice [][]interface{}, n int) {
 }
 
 func (enc *Encoder) writeBytesSliceBody(slice [][]byte, n int) {
-	enc.AddReferenceCount(n)
+	// a nil element is written as null, which takes no reference number on the decoding side
+	count := 0
+	for i := 0; i < n; i++ {
+		if slice[i] != nil {
+			count++
+		}
+	}
+	enc.AddReferenceCount(count)
 	for i := 0; i < n; i++ {
 		enc.buf = appendBytes(enc.buf, slice[i])
 	}
